@@ -22,7 +22,15 @@ FRACTIONS = (0.3, 0.68, 0.95)
 def quantile_sample(shape, n):
     from scipy import stats
     d = {"normal": stats.norm(), "gamma4": stats.gamma(4.0), "neggamma3": stats.gamma(3.0), "t8": stats.t(8.0), "logistic": stats.logistic(),
-         "lognormal": stats.lognorm(0.5), "skewnormal": stats.skewnorm(4.0), "t5": stats.t(5.0)}[shape]
+         "lognormal": stats.lognorm(0.5), "skewnormal": stats.skewnorm(4.0), "t5": stats.t(5.0), "spike": None}[shape]
+    if shape == "spike":
+        # a narrow tall peak, off the centre of a broad base (still unimodal): 80 % N(0.37, 0.02^2) + 20 % N(0, 1)
+        from scipy import stats as _st
+        n1 = (4 * n) // 5
+        x = np.sort(np.concatenate([0.37 + 0.02 * _st.norm().ppf((np.arange(n1) + 0.5) / n1), _st.norm().ppf((np.arange(n - n1) + 0.5) / (n - n1))]))
+        x = (x - x.mean()) / x.std()
+        np.random.default_rng(12345).shuffle(x)
+        return x
     x = d.ppf((np.arange(n) + 0.5) / n)
     if shape.startswith("neg"):
         x = -x
@@ -38,6 +46,8 @@ def build(kind, sample):
             from inference.pdf.unimodal import UnimodalPdf
             return UnimodalPdf(sample)
         from inference.pdf.kde import GaussianKDE
+        if kind == "kde_2d":
+            return GaussianKDE(sample.reshape(4, -1))           # the sample handed over as four stacked chains
         if kind == "kde_cv_sub":
             return GaussianKDE(sample, cross_validation=True, max_cv_samples=100)      # cross-validation on a sub-sample
         return GaussianKDE(sample, cross_validation=(kind == "kde_cv"))
@@ -70,12 +80,13 @@ def own_moments(est, lo, hi, centre, scale):
     return mu, v, sk, ku
 
 
-def tabulate(est, kind, sample, rng):
+def tabulate(est, kind, sample, rng, smooth=True):
     """the record judged by PdfTable.tla, and the normalised read-outs used by the covariance clause"""
     from scipy.integrate import quad
     lo, hi = float(est.lwr_limit), float(est.upr_limit)
-    x = np.linspace(lo, hi, NCELL + 1)
-    dx = (hi - lo) / NCELL
+    ncell = NCELL if smooth else 16 * NCELL               # a density with a narrow peak is tabulated sixteen times finer
+    x = np.linspace(lo, hi, ncell + 1)
+    dx = (hi - lo) / ncell
     perm = rng.permutation(x.size)
     with warnings.catch_warnings(), np.errstate(all="ignore"):
         warnings.simplefilter("ignore")
@@ -85,6 +96,17 @@ def tabulate(est, kind, sample, rng):
         F[perm] = np.asarray(est.cdf(x[perm]), dtype=float)
         Fs = [[int(i) + 1, q(float(np.squeeze(est.cdf(np.array([x[i]])))) * U)] for i in range(8, x.size, 16)]
         Fs += [[int(i) + 1, q(float(np.squeeze(est.cdf(float(x[i])))) * U)] for i in range(16, x.size, 64)]      # scalar argument
+        # whole-number query points inside the range, as an integer array and as a Python int: what the equal floats give
+        ints = np.arange(math.ceil(lo + 0.25 * (hi - lo)), math.floor(hi - 0.25 * (hi - lo)) + 1)
+        if 1 <= ints.size <= 200:
+            Ff = np.atleast_1d(np.asarray(est.cdf(ints.astype(float)), dtype=float))
+            Fi = np.atleast_1d(np.asarray(est.cdf(ints.astype(int)), dtype=float))
+            F1 = float(np.squeeze(est.cdf(int(ints[0]))))
+            pi_ = np.atleast_1d(np.asarray(est(ints.astype(int)), dtype=float))
+            pf_ = np.atleast_1d(np.asarray(est(ints.astype(float)), dtype=float))
+            int_ok = bool(np.array_equal(Fi, Ff) and F1 == Ff[0] and np.array_equal(pi_, pf_))
+        else:
+            int_ok = True
         sd = float(np.std(sample))
         mean = float(np.mean(sample))
         f = lambda z: float(np.squeeze(est(np.array([z]))))
@@ -105,7 +127,7 @@ def tabulate(est, kind, sample, rng):
     mo = {"mean": q((mu - mean) / sd * M), "var": q(var / sd ** 2 * M), "skew": q(skw * M), "kurt": q(kur * M),
           "mean_r": q(mr[0] * M), "var_r": q(mr[1] * M), "skew_r": q(mr[2] * M), "kurt_r": q(mr[3] * M),
           "mean_w": q(mw[0] * M), "var_w": q(mw[1] * M), "skew_w": q(mw[2] * M), "kurt_w": q(mw[3] * M)}
-    rec = {"P": [q(v * dx * U) for v in p], "F": [q(v * U) for v in F], "Fs": Fs, "out": q(out * U), "pm": q(pm * dx * U), "iv": iv, "mo": mo}
+    rec = {"int_ok": int_ok, "smooth": bool(smooth), "P": [q(v * dx * U) for v in p], "F": [q(v * U) for v in F], "Fs": Fs, "out": q(out * U), "pm": q(pm * dx * U), "iv": iv, "mo": mo}
     norm = {"mean": (mu - mean) / sd, "var": var / sd ** 2, "skew": skw, "kurt": kur, "ends": ends, "p_mode": pm * sd,
             "limits": [(lo - mean) / sd, (hi - mean) / sd]}
     return rec, norm
@@ -118,12 +140,12 @@ def tabulate(est, kind, sample, rng):
 # tree: interval(0.3) ends 0.17 std apart for the skewed shapes).  That non-uniqueness is outside what a specification can decide, so
 # for UnimodalPdf the bands are wide: they still separate it by orders of magnitude from the defect the property speaks of (read-outs
 # that lose all accuracy far from zero: mean -180 instead of 3).
-COV_TOL = {"kde_cv_sub": {}, "kde_cv": {"mean": 2e-3, "var": 2e-2, "skew": 2e-2, "kurt": 6e-2, "ends": 2e-2, "p_mode": 2e-2},
+COV_TOL = {"kde_cv_sub": {}, "kde_2d": {}, "kde_cv": {"mean": 2e-3, "var": 2e-2, "skew": 2e-2, "kurt": 6e-2, "ends": 2e-2, "p_mode": 2e-2},
            "kde": {"mean": 2e-3, "var": 5e-3, "skew": 1e-2, "kurt": 3e-2, "ends": 5e-3, "p_mode": 3e-3},
            "unimodal": {"mean": 0.1, "var": 0.15, "skew": 0.3, "kurt": 1.0, "ends": 0.3, "p_mode": 0.1}}
 
 
-def run_part(ck, tier, kinds=("unimodal", "kde", "kde_cv", "kde_cv_sub")):
+def run_part(ck, tier, kinds=("unimodal", "kde", "kde_cv", "kde_cv_sub", "kde_2d")):
     r = run_tlc("MC_PdfFamily", cfg_text='INIT Init\nNEXT Next\nCONSTANT Tier = "%s"\nCHECK_DEADLOCK FALSE\n' % tier, timeout=600)
     must_pass(r, "MC_PdfFamily")
     ck.tlc(r, "pdf_family")
@@ -137,13 +159,13 @@ def run_part(ck, tier, kinds=("unimodal", "kde", "kde_cv", "kde_cv_sub")):
         a = 10.0 ** d["alog10"]
         z = quantile_sample(d["shape"], d["n"])
         sample = a * z + a * d["bsd"]
-        ident = {"estimator": {"unimodal": "UnimodalPdf", "kde": "GaussianKDE", "kde_cv": "GaussianKDE(cross_validation=True)", "kde_cv_sub": "GaussianKDE(cross_validation=True, max_cv_samples=100)"}[d["kind"]], "shape": d["shape"], "n": d["n"], "a": a,
+        ident = {"estimator": {"unimodal": "UnimodalPdf", "kde": "GaussianKDE", "kde_cv": "GaussianKDE(cross_validation=True)", "kde_cv_sub": "GaussianKDE(cross_validation=True, max_cv_samples=100)", "kde_2d": "GaussianKDE(sample as a (4, n/4) array)"}[d["kind"]], "shape": d["shape"], "n": d["n"], "a": a,
                  "b_in_std": d["bsd"], "sample": "a * standardised quantile sample (fixed permutation) + a * b_in_std"}
         cname = ident["estimator"]
         ck.case((d["kind"], d["shape"], d["n"], d["alog10"], d["bsd"]))
         try:
             est = build(d["kind"], sample)
-            rec, norm = tabulate(est, d["kind"], sample, rng)
+            rec, norm = tabulate(est, d["kind"], sample, rng, smooth=(d["shape"] != "spike"))      # the spike is narrower than a cell
         except Exception as ex:
             ck.violation("density estimator raised on a unimodal sample", {**ident, "error": repr(ex)[:300]}, site=f"{cname}")
             continue
